@@ -542,6 +542,16 @@ struct Impl {
         throw t;
     }
 
+    // a second, distinguishable throwing handler (mode 3)
+    static void call_error_thrower2(
+        const method_call_error&, std::size_t, type_id*) {
+        ++g_error_deliveries;
+        ++deliveries;
+        Thrown t;
+        t.rec.kind = ErrorRec::other_exception;
+        throw t;
+    }
+
     static void call_error_returner(
         const method_call_error&, std::size_t, type_id*) {
         ++g_error_deliveries;
@@ -556,6 +566,7 @@ struct Impl {
                 Pol::error = default_error;
                 Pol::call_error = mode == 0 ? call_error_thrower
                     : mode == 1             ? call_error_returner
+                    : mode == 3             ? call_error_thrower2
                                             : default_call_error;
                 return;
             }
